@@ -29,6 +29,8 @@ import (
 
 	sdkmath "cosmossdk.io/math"
 	sdk "github.com/cosmos/cosmos-sdk/types"
+	authtypes "github.com/cosmos/cosmos-sdk/x/auth/types"
+	distrtypes "github.com/cosmos/cosmos-sdk/x/distribution/types"
 	gethcommon "github.com/ethereum/go-ethereum/common"
 	gethcore "github.com/ethereum/go-ethereum/core/types"
 	"github.com/ethereum/go-ethereum/core/vm"
@@ -44,9 +46,12 @@ import (
 )
 
 const (
-	nAddr = 5 // model addresses 1..nAddr
-	nKey  = 3 // slots 1..nKey
+	nAddr = 7 // model addresses 1..nAddr; 6 and 7 are the distribution and fee-collector module accounts,
+	// which the bank refuses to credit (blocked addresses): a commit that has to raise their balance fails
+	nKey = 3 // slots 1..nKey
 )
+
+var blockedIDs = []int64{6, 7}
 
 var unibiWei = big.NewInt(1_000_000_000_000)
 var emptyCodeHash = crypto.Keccak256(nil)
@@ -144,9 +149,10 @@ func (o *op) UnmarshalJSON(bz []byte) error {
 }
 
 type c04Input struct {
-	Accs   [][4]int64 `json:"accs"` // id, unibi, nonce, code id
-	Stor   [][3]int64 `json:"stor"` // id, slot, value
-	Script []op       `json:"script"`
+	Accs    [][4]int64 `json:"accs"` // id, unibi, nonce, code id
+	Stor    [][3]int64 `json:"stor"` // id, slot, value
+	Script  []op       `json:"script"`
+	Blocked []int64    `json:"blocked"` // ids of blocked module accounts (always 6, 7; listed in accs with 0 0 0)
 }
 
 type c04Obs struct {
@@ -154,15 +160,23 @@ type c04Obs struct {
 	Stor      [][3]int64  `json:"stor"`
 	Logs      int         `json:"logs"`
 	Refund    uint64      `json:"refund"`
-	Al        [][2]int64  `json:"al"`    // id, in access list
-	Als       [][3]int64  `json:"als"`   // id, slot, in access list
-	Views     [][3]string `json:"views"` // id, StateDB wei, bank unibi
-	LimitErrs int         `json:"limit_errs"`
+	Al        [][2]int64  `json:"al"`           // id, in access list
+	Als       [][3]int64  `json:"als"`          // id, slot, in access list
+	Views     [][3]string `json:"views"`        // id, StateDB wei, bank unibi
+	LimitErrs int         `json:"limit_errs"`   // precompile calls refused by OnRunStart (limit or failing flush)
+	FlushErrs int         `json:"flush_errs"`   // … of which CommitCacheCtx failed (API driver only)
+	Supply    string      `json:"supply_delta"` // unibi supply after Commit minus before the case and minus the initial table
 	CommitErr string      `json:"commit_err"`
 	Panic     string      `json:"panic"`
 }
 
 func addrOf(id int64) gethcommon.Address {
+	switch id {
+	case 6:
+		return gethcommon.BytesToAddress(authtypes.NewModuleAddress(distrtypes.ModuleName))
+	case 7:
+		return gethcommon.BytesToAddress(authtypes.NewModuleAddress(authtypes.FeeCollectorName))
+	}
 	return gethcommon.BigToAddress(big.NewInt(0xC0400000 + id))
 }
 func hashOf(v int64) gethcommon.Hash { return gethcommon.BigToHash(big.NewInt(v)) }
@@ -216,7 +230,9 @@ func (r *runner) onRunStart() (cacheCtx sdk.Context, ok bool) {
 		return cacheCtx, false
 	}
 	if err := db.CommitCacheCtx(); err != nil {
-		r.obs.CommitErr = "cache: " + err.Error()
+		// e.g. a blocked module account would have to be credited: the call fails, the frame is reverted
+		r.obs.LimitErrs++
+		r.obs.FlushErrs++
 		return cacheCtx, false
 	}
 	return cacheCtx, true
@@ -324,8 +340,12 @@ func runCase(deps *evmtest.TestDeps, in c04Input, viaOnRunStart bool) c04Obs {
 	obs := c04Obs{Accs: [][5]int64{}, Stor: [][3]int64{}, Al: [][2]int64{}, Als: [][3]int64{}, Views: [][3]string{}}
 	deps.EvmKeeper.Bank.StateDB = nil
 	ctx, _ := deps.Ctx.CacheContext()
+	supply0 := deps.App.BankKeeper.GetSupply(ctx, "unibi").Amount
 	// initial table
 	for _, a := range in.Accs {
+		if a[0] == 6 || a[0] == 7 {
+			continue // module accounts exist already (balance 0, sequence 0: checked at start-up)
+		}
 		code := codeOf(a[3])
 		ch := emptyCodeHash
 		if code != nil {
@@ -366,6 +386,12 @@ func runCase(deps *evmtest.TestDeps, in c04Input, viaOnRunStart bool) c04Obs {
 		}
 	})
 	deps.EvmKeeper.Bank.StateDB = nil
+	// supply change from the initial table to the end (the initial table itself is minted)
+	initSum := int64(0)
+	for _, a := range in.Accs {
+		initSum += a[1]
+	}
+	obs.Supply = deps.App.BankKeeper.GetSupply(ctx, "unibi").Amount.Sub(supply0).SubRaw(initSum).String()
 	for id := int64(1); id <= nAddr; id++ {
 		a := addrOf(id)
 		acc := deps.EvmKeeper.GetAccount(ctx, a)
@@ -468,7 +494,8 @@ func (g *gen) due() (op, bool) {
 	return op{}, false
 }
 
-func (g *gen) addr() int64 { return int64(g.rng.Range(1, nAddr)) }
+// ordinary accounts only: the blocked module accounts 6, 7 appear only as credit targets
+func (g *gen) addr() int64 { return int64(g.rng.Range(1, 5)) }
 
 func (g *gen) amount() int64 {
 	u := int64(g.rng.Pick(2, 3, 3, 2, 1)) // 0,1,2,3,4 unibi … scaled below
@@ -540,7 +567,7 @@ func (g *gen) precompile() []op {
 		for a := range seen {
 			_ = a
 		}
-		for id := int64(1); id <= nAddr; id++ {
+		for id := int64(1); id <= 5; id++ {
 			if seen[id] || r.Chance(1, 4) {
 				out = append(out, op{K: "to", A: id})
 			}
@@ -560,6 +587,39 @@ func (g *gen) body(depth, maxLen int) []op {
 			continue
 		}
 		switch {
+		case g.calls < 12 && depth < 6 && r.Chance(6, 100):
+			// a frame that credits a fresh / ordinary address and a BLOCKED module account, then calls a
+			// precompile: the pre-run flush fails half-way; mostly the frame reverts (require(success))
+			g.calls++
+			inner := []op{{K: "ab", A: g.addr(), V: int64(r.Range(1, 9)) * 1_000_000_000_000}}
+			if r.Chance(1, 2) {
+				inner = append(inner, op{K: "sb", A: 1, V: int64(r.Range(1, 9)) * 1_000_000_000_000})
+			}
+			inner = append(inner, op{K: "ab", A: blockedIDs[r.Intn(2)], V: int64(r.Range(1, 9)) * 1_000_000_000_000})
+			if r.Chance(1, 3) {
+				inner = append(inner, op{K: "ss", A: 4, B: 1, V: int64(r.Range(0, 3))})
+			}
+			inner = append(inner, op{K: "pc", Sends: [][3]int64{{1, g.addr(), int64(r.Range(1, 9))}}, Flag: false})
+			for id := int64(1); id <= 3; id++ {
+				inner = append(inner, op{K: "to", A: id})
+			}
+			inner = append(inner, g.body(depth+1, 2)...)
+			out = append(out, op{K: "fr", Body: inner, Flag: r.Chance(5, 6)})
+		case depth < 6 && r.Chance(6, 100):
+			// CreateAccount on an address that already has a funded object (nonce 0, no code), then balance
+			// ops on it, inside a frame that mostly reverts
+			a := int64(r.Range(2, 3))
+			inner := []op{{K: "cr", A: a}}
+			for i := r.Range(1, 3); i > 0; i-- {
+				if r.Chance(1, 2) {
+					inner = append(inner, op{K: "ab", A: a, V: g.amount()})
+				} else {
+					inner = append(inner, op{K: "sb", A: a, V: int64(r.Range(1, 5)) * 1_000_000_000_000})
+				}
+			}
+			inner = append(inner, op{K: "to", A: a})
+			inner = append(inner, g.body(depth+1, 2)...)
+			out = append(out, op{K: "fr", Body: inner, Flag: r.Chance(2, 3)}, op{K: "to", A: a})
 		case depth < 6 && r.Chance(18, 100):
 			out = append(out, op{K: "fr", Body: g.body(depth+1, 5), Flag: r.Chance(1, 2)})
 		case g.calls < 11 && depth < 6 && r.Chance(8, 100):
@@ -600,7 +660,13 @@ func genCase(r *Rng) c04Input {
 			script = append(script, p.op)
 		}
 	}
-	return c04Input{Accs: v.accs, Stor: v.stor, Script: script}
+	return c04Input{Accs: withModules(v.accs), Stor: v.stor, Script: script, Blocked: blockedIDs}
+}
+
+// withModules adds the two blocked module accounts (balance 0, sequence 0, no code) to the table.
+func withModules(accs [][4]int64) [][4]int64 {
+	out := append([][4]int64{}, accs...)
+	return append(out, [4]int64{6, 0, 0, 0}, [4]int64{7, 0, 0, 0})
 }
 
 const U = 1_000_000_000_000
@@ -623,6 +689,15 @@ func openers() []c04Input {
 			fr(true, op{K: "sn", A: 1, V: 4}, pc(false, [3]int64{1, 2, 30}), op{K: "ss", A: 1, B: 3, V: 2}),
 			pc(false, [3]int64{1, 3, 10}), {K: "to", A: 1}, {K: "to", A: 3}, {K: "sn", A: 1, V: 6}},
 		many,
+		// the pre-run flush of a precompile call fails half-way (credit to a fresh address, then to a blocked
+		// module account); the frame reverts, the outer frame goes on: nothing of the flush may survive
+		{fr(true, op{K: "sb", A: 1, V: 12 * U}, op{K: "ab", A: 3, V: 5 * U}, op{K: "ab", A: 6, V: 7 * U}, pc(false), op{K: "to", A: 3}),
+			{K: "to", A: 3}, {K: "sn", A: 1, V: 2}, pc(false, [3]int64{1, 2, 1}), {K: "to", A: 1}, {K: "to", A: 3}},
+		{{K: "ab", A: 2, V: 3 * U}, fr(true, op{K: "ab", A: 3, V: 5 * U}, op{K: "ab", A: 7, V: 2 * U}, fr(true, pc(false)), op{K: "ss", A: 4, B: 1, V: 3}, pc(true)),
+			pc(false), {K: "to", A: 2}, {K: "to", A: 3}},
+		// CreateAccount on a funded object, balance ops on the new object, frame reverted / kept
+		{fr(true, op{K: "cr", A: 2}, op{K: "ab", A: 2, V: 4 * U}, op{K: "sb", A: 2, V: U}, op{K: "to", A: 2}), {K: "to", A: 2}, {K: "ab", A: 2, V: 0}},
+		{fr(false, op{K: "cr", A: 2}, op{K: "ab", A: 2, V: 4 * U}, fr(true, op{K: "sb", A: 2, V: 3 * U}, pc(false)), op{K: "to", A: 2}), {K: "to", A: 2}},
 		// a field changed, flushed by a successful call, a LATER call's frame reverted, then the field written
 		// back to its tx-start value (nonce: the msg server's reset/set pattern; balance; code; storage)
 		{{K: "sn", A: 1, V: 0}, pc(false), fr(true, pc(false)), {K: "sn", A: 1, V: 1}},
@@ -637,7 +712,7 @@ func openers() []c04Input {
 	}
 	var out []c04Input
 	for _, s := range scripts {
-		out = append(out, c04Input{Accs: v.accs, Stor: v.stor, Script: s})
+		out = append(out, c04Input{Accs: withModules(v.accs), Stor: v.stor, Script: s, Blocked: blockedIDs})
 	}
 	return out
 }
@@ -656,12 +731,23 @@ func runC04(t *testing.T, viaOnRunStart bool) {
 	em := NewEmitter(t, cfg.Out)
 	defer em.Close()
 	deps := evmtest.NewTestDeps()
+	for _, name := range []string{distrtypes.ModuleName, authtypes.FeeCollectorName} {
+		acc := deps.App.AccountKeeper.GetModuleAccount(deps.Ctx, name) // creates it if missing
+		bal := deps.App.BankKeeper.GetBalance(deps.Ctx, acc.GetAddress(), "unibi").Amount
+		if !bal.IsZero() || acc.GetSequence() != 0 {
+			t.Fatalf("module account %s is expected to start with balance 0 and sequence 0 (has %s, %d)", name, bal, acc.GetSequence())
+		}
+	}
 	var inputs []c04Input
 	if cfg.Replay != "" {
 		for _, raw := range cfg.ReplayInputs(t) {
 			var in c04Input
 			if err := json.Unmarshal(raw, &in); err != nil {
 				t.Fatalf("replay input: %v", err)
+			}
+			if in.Blocked == nil { // older corpus entries
+				in.Blocked = blockedIDs
+				in.Accs = withModules(in.Accs)
 			}
 			inputs = append(inputs, in)
 		}
